@@ -313,6 +313,35 @@ def convergence(chk, t, rng):
             chk.violation("component (%d,%d) on a %g x %g m domain (shooting growth exp(%.1f)): the error against the exact solution is %.3e with 96 layers and %.3e with 384: it does not shrink 2.5 times"
                           % (comp[0], comp[1], dom_s[0], dom_s[1], grow, errs[0], errs[1]), {"kind": "convergence", "variant": "large growth", "domain": dom_s, "component": comp, "errors": errs, "growth": grow},
                           klass={"check": "convergence_ratio", "family": "log_neutral", "variant": "large growth"})
+    # a WEAK component next to a strong one: the problem is linear, every retained component is solved whatever its amplitude
+    from bldfm.solver import steady_state_transport_solver
+    nweak = 0
+    for fam in ("power", "most_unstable"):
+        f, z0, ztop = profile_family(fam)
+        nn = 96
+        z = grid_of("uniform", z0, ztop, nn)
+        prof = tuple(np.asarray(a, dtype=float) * np.ones_like(z) for a in f(z))
+        nx, ny = nxy
+        x = np.arange(nx) * domain[0] / nx
+        y = np.arange(ny) * domain[1] / ny
+        X, Y = np.meshgrid(x, y)
+        th1 = 2 * np.pi * (1 * X / domain[0] + 0 * Y / domain[1])
+        th2 = 2 * np.pi * (2 * X / domain[0] - 1 * Y / domain[1])
+        for amp in (1e-9, 1e-12):
+            q0 = np.cos(th1) + amp * np.cos(th2)
+            _, conc, flx = steady_state_transport_solver(q0, z, prof, domain, [0, nn // 2], modes=(nx, ny), halo=0.0, precision="double")
+            conc = np.asarray(conc).reshape(2, ny, nx)
+            kx2, ky2 = 2 * np.pi * 2 / domain[0], -2 * np.pi / domain[1]
+            ex, _ = exact_response(f, float(z[0]), float(z[-1]), kx2, ky2, [float(z[0]), float(z[nn // 2])])
+            got = 2.0 * (conc[0] * np.exp(-1j * th2)).mean() / amp            # the weak component's surface response per unit amplitude
+            want = ex[float(z[0])][0]
+            nweak += 1
+            n += 1
+            chk.case(json.dumps(["weak component", fam, amp]))
+            if abs(got - want) > 0.3 * abs(want):
+                chk.violation("%s profiles: a component of relative amplitude %g next to a unit one responds with %.4g%+.4gj per unit amplitude, the exact response is %.4g%+.4gj (96 layers): a retained component is not solved"
+                              % (fam, amp, got.real, got.imag, want.real, want.imag), {"kind": "weak_component", "family": fam, "amplitude": amp}, klass={"check": "weak_component"})
+    chk.extra["weak_component_cases"] = nweak
     chk.extra["large_growth_cases"] = ngrow
     chk.extra["convergence_cases"] = n
     chk.extra["smallest_error_reduction_when_quartered"] = worst_ratio
